@@ -115,9 +115,9 @@ pub enum Io { Write(NodeId, Vec<Message>) }
 /// stand-in for `refs.iter().find(|r| r.remote == ann.node)`: result arbitrary
 #[verifier::external_body]
 pub fn vx_find_own<'a>(refs: &'a Vec<RefsAt>, node: &NodeId) -> Option<&'a RefsAt> { unimplemented!() }
-/// stand-in for `relayed_by.map(|relayers| !relayers.contains(id)).unwrap_or(true)`: result arbitrary (not a visibility test)
-#[verifier::external_body]
-pub fn vx_not_relayed_by(relayed_by: Option<&Vec<NodeId>>, id: &NodeId) -> bool { unimplemented!() }
+/// ASSUMED (core): `<[T]>::contains(x)` is `iter().any(|e| e == x)`: membership when `==` is structural
+pub assume_specification<T: PartialEq>[<[T]>::contains](s: &[T], x: &T) -> (r: bool)
+    ensures (forall|a: T, b: T| #[trigger] vstd::std_specs::cmp::PartialEqSpec::eq_spec(&a, &b) == (a == b)) ==> r == s@.contains(*x);
 
 //@extract crates/radicle-node/src/service/message.rs
 //@  item const ADDRESS_LIMIT
@@ -207,11 +207,14 @@ pub open spec fn into_v<A: Into<B>, B>(a: A) -> B { vstd::std_specs::convert::In
 //@      { unimplemented!() }
 //@    fn relay
 //@      # closures: tuple-pattern parameters become a variable + `let` (Verus), and the visibility filter gets its contract in place
-//@      body_sub (?s)\.filter\(\|\(id, _\)\| \{\s*relayed_by\s*\.map\(\|relayers\| !relayers\.contains\(id\)\)\s*\.unwrap_or\(true\)[^}]*\}\) => .filter(|__vx_p0: &(&NodeId, &Session)| -> (b: bool) { let (id, _) = __vx_p0; vx_not_relayed_by(relayed_by, id) })
+//@      body_sub (?s)\.filter\(\|\(id, _\)\| \{\s*relayed_by\s*\.map\(\|relayers\| !relayers\.contains\(id\)\) => .filter(|__vx_p0: &(&NodeId, &Session)| -> (b: bool) ensures b ==> !(relayed_by is Some && relayed_by->Some_0@.contains(*(*__vx_p0).0)) { let (id, _) = __vx_p0; relayed_by.map(|relayers: &Vec<NodeId>| -> (v: bool) ensures v == !relayers@.contains(**id) { !relayers.contains(id) })
 //@      body_sub \.filter\(\|\(id, _\)\| \*\*id != announcer\) => .filter(|__vx_p1: &(&NodeId, &Session)| -> (b: bool) ensures b ==> *(*__vx_p1).0 != announcer { let (id, _) = __vx_p1; **id != announcer })
 //@      body_sub \.filter\(\|\(id, _\)\| \{\s*if let Some\(rid\) = rid \{ => .filter(|__vx_p2: &(&NodeId, &Session)| -> (b: bool) ensures (rid is Some && b) ==> visible(rid->Some_0, Did(*(*__vx_p2).0)) { let (id, _) = __vx_p2; if let Some(rid) = rid {
 //@      body_sub \.map\(\|doc\| doc\.is_visible_to\(&\(\*id\)\.into\(\)\)\) => .map(|doc: Doc| -> (v: bool) ensures v == visible(doc.rid, Did(**id)) { doc.is_visible_to(&(*id).into()) })
 //@      body_sub \.map\(\|\(_, p\)\| p\); => .map(|__vx_p3: (&NodeId, &Session)| -> (s: &Session) ensures s == __vx_p3.1 { let (_, p) = __vx_p3; p });
+//@      # C10: "a relayed announcement is never sent to a peer that delivered it to us"
+//@      hint 1 self\.outbox\.relay\(ann, relay_to\);
+//@        assert(forall|p: &Session| #[trigger] relay_to.has(p) ==> !(relayed_by is Some && relayed_by->Some_0@.contains(p.id)));
 //@      head
 //@        proof { ids_lawful(); }
 //@    fn announce_refs
